@@ -68,6 +68,14 @@ def scenarios(r, n, ctx):
         if not s['overwrite'] and s['dest'] == 'present':
             s['dest'] = 'absent'
         extra.append(s)
+    for kind in ('KeyboardInterrupt', 'SystemExit', 'GeneratorExit', 'body-error'):
+        for dest in ('absent', 'present'):
+            for body in ([5], [20000, 20000], [3, 4, 5]):
+                for at in sorted(set([0, 1, len(body)])):
+                    extra.append({'overwrite': True, 'overwrite_part': False, 'rm_part_on_exc': True,
+                                  'text_mode': False, 'file_perms': None, 'umask': 0o022, 'dest': dest,
+                                  'part': 'absent', 'writes': body, 'flush': [], 'raise_at': at,
+                                  'raise_kind': kind})
     return out, extra
 
 
@@ -102,6 +110,24 @@ def check_scenario_B(fu, scn, stats, viol):
         os.mkdir(d0)
         res = F.run_in_process(fu, scn, d0)
         log = res['log']
+        if scn.get('raise_at') is not None:
+            # the process is going down through Python-level unwinding (SIGINT -> KeyboardInterrupt,
+            # sys.exit() in a handler, a generator being closed) in the middle of the body
+            stats.evaluations += 1
+            stats.monitor_evals += 1
+            stats.count('body-unwinds:' + scn.get('raise_kind', 'body-error'))
+            bad = classify_dest(res['after'], res['before'], want)
+            a = res['after']['dest']
+            if bad or (a is not None and res['before']['dest'] is None) or \
+                    (a is not None and a['bytes'] == want and res['before']['dest']['bytes'] != want):
+                viol('body-unwinds:%s:published' % scn.get('raise_kind', 'body-error'),
+                     'the body was left by %s before write %r of %d, yet the destination now holds %r...'
+                     % (scn.get('raise_kind'), scn['raise_at'], len(scn['writes']), a and a['bytes'][:30]),
+                     {'layer': 'B', 'scn': scn, 'crash_before': None})
+            if res['exc'] is None:
+                viol('body-unwinds:swallowed', 'exception from the body did not propagate',
+                     {'layer': 'B', 'scn': scn, 'crash_before': None})
+            return
         if res['exc'] is not None:
             viol('normal-exit:raised', 'fault-free save raised %r' % res['exc'],
                  {'layer': 'B', 'scn': scn, 'crash_before': None})
@@ -229,7 +255,8 @@ def run(ctx):
             break
         st.count('scenarios_B')
         check_scenario_B(fu, scn, st, viol)
-        if have_strace and i % max(1, len(mine) // nA) == 0 and st.counters.get('scenarios_A_strace', 0) < nA:
+        if have_strace and scn.get('raise_at') is None and i % max(1, len(core) // ctx.nshards // nA) == 0 \
+                and st.counters.get('scenarios_A_strace', 0) < nA:
             st.count('scenarios_A_strace')
             check_scenario_A(scn, st, viol)
 
